@@ -26,7 +26,7 @@ Definition word_ok (t : stok) : Prop :=
 Lemma step_word_ok s t rest : spec_step s = Some (t, rest) -> word_ok t.
 Proof.
   intros H. pose proof (spec_step_shape _ _ _ H) as Sh. destruct Sh; unfold word_ok; cbn [s_kind mk s_text s_raw]; try exact I; try reflexivity.
-  - unfold spec_number in H1. destruct (num_run _ _ _) as [run rs]. destruct (spec_numeral run) as [[n d]|]; [|discriminate].
+  - unfold spec_number in H1. destruct (num_split _) as [run rs]. destruct (spec_numeral run) as [[n d]|]; [|discriminate].
     injection H1 as <- _. exact I.
   - destruct (mem_bytes a spec_keywords) eqn:E; cbn [s_kind mk s_text s_raw]; [split; [reflexivity | exact E] | reflexivity].
   - destruct (spec_symbol_inv _ _ _ H0) as (x & _ & -> & _). reflexivity.
